@@ -1,2 +1,4 @@
--- stub driver for C04: replaced when the property's model exists
-def main : IO Unit := pure ()
+import Snel.Model.ReplayProto
+open Snel
+
+def main : IO Unit := Proto.serve ReplayProto.answer
